@@ -3,9 +3,13 @@ package main
 import (
 	"encoding/json"
 	"fmt"
+	"os"
+	"path/filepath"
 	"regexp"
 	"sort"
 	"strconv"
+	"strings"
+	"sync/atomic"
 
 	cc "connectrpc.com/conformance/internal/app/connectconformance"
 	"connectrpc.com/conformance/internal/verifharness/gen"
@@ -27,6 +31,9 @@ func init() {
 	gen.RegisterOp("c04", "report", func(_ *gen.Ctx, raw json.RawMessage) any {
 		in := gen.Into[c04In](raw)
 		return c04Report(in)
+	})
+	gen.RegisterOp("c04", "run", func(c *gen.Ctx, raw json.RawMessage) any {
+		return c04Run(c, gen.Into[c04RunIn](raw))
 	})
 }
 
@@ -103,7 +110,9 @@ func c04Report(in c04In) c04Out {
 }
 
 func runC04(c *gen.Ctx) error {
-	r := c.R
+	// gen.NewRand(seed) starts SplitMix64 at seed*gamma+c, so the streams of nearby seeds are the
+	// same stream shifted by a few draws; Fork() re-seeds from a mixed value to decorrelate them
+	r := c.R.Fork()
 	kinds := []byte("pacsnrm")
 	marks := []byte("ufk")
 	var combos []string // 42 = 7 kinds x 3 marks x 2 feedback
@@ -169,6 +178,42 @@ func runC04(c *gen.Ctx) error {
 			c.E.Count("random:with-unknown-cases")
 		}
 	}
+	// (iv) end to end through the real Run: the reference client binary on every assignment of
+	// {right, wrong expectation} x marking to 1 case (thorough: also 2 cases), random larger ones,
+	// and clients that exit with status 0 / 1 before any request was sent
+	if c.BinDir != "" {
+		rc := []string{"ru", "rf", "rk", "wu", "wf", "wk"}
+		for _, a := range rc {
+			c.Do("run", c04RunIn{"reference", []string{a}})
+		}
+		if c.Thorough() {
+			for _, a := range rc {
+				for _, b := range rc {
+					c.Do("run", c04RunIn{"reference", []string{a, b}})
+				}
+			}
+		}
+		nRun := 6
+		if c.Thorough() {
+			nRun = 40
+		}
+		for i := 0; i < nRun; i++ {
+			cs := make([]string, r.Range(2, 5))
+			for k := range cs {
+				if r.Chance(2, 3) {
+					cs[k] = gen.Pick(r, []string{"ru", "ru", "rk", "wf", "wk"}) // meets its expectation
+				} else {
+					cs[k] = gen.Pick(r, rc)
+				}
+			}
+			c.Do("run", c04RunIn{"reference", cs})
+		}
+		for _, cl := range []string{"exit0", "exit1"} {
+			c.Do("run", c04RunIn{cl, []string{"ru"}})
+			c.Do("run", c04RunIn{cl, []string{"ru", "rf", "rk"}})
+			c.Do("run", c04RunIn{cl, []string{"rk", "wf"}})
+		}
+	}
 	// (iii) the clamp for a total that was never configured (tests use 0): agreement only
 	for i := 0; i < 200; i++ {
 		n := r.Range(1, 6)
@@ -179,4 +224,84 @@ func runC04(c *gen.Ctx) error {
 		c.Do("report", c04In{r.Intn(n), cs})
 	}
 	return nil
+}
+
+// ---- op "run": the real Run, end to end (client mode, in-process reference server)
+//
+// in = {client, cases}: client is "reference" (the real reference client binary built from the
+// tree), "exit0" (/bin/true: exits with status 0 before any request was sent) or "exit1"
+// (/bin/false); cases[i] is a 2-character code: expectation r (right: what the reference server
+// will answer) | w (wrong payload bytes expected), marking u | f | k.  impl = Run's verdict.
+
+type c04RunIn struct {
+	Client string   `json:"client"`
+	Cases  []string `json:"cases"`
+}
+
+type c04RunOut struct {
+	OK          bool     `json:"ok"`
+	Err         string   `json:"err"`
+	FailedNames []string `json:"failedNames"`
+}
+
+const c04RunCfg = `features:
+  versions: [HTTP_VERSION_1]
+  protocols: [PROTOCOL_CONNECT]
+  codecs: [CODEC_PROTO]
+  compressions: [COMPRESSION_IDENTITY]
+  streamTypes: [STREAM_TYPE_UNARY]
+  supportsTls: false
+  supportsConnectGet: false
+  supportsMessageReceiveLimit: false
+`
+
+var c04RunSeq atomic.Int64
+
+func c04Run(c *gen.Ctx, in c04RunIn) c04RunOut {
+	var sb strings.Builder
+	sb.WriteString("name: V\ntestCases:\n")
+	var failing, flaky []string
+	for i, code := range in.Cases {
+		if len(code) != 2 || (code[0] != 'r' && code[0] != 'w') || (code[1] != 'u' && code[1] != 'f' && code[1] != 'k') {
+			panic("c04: bad run case code " + code)
+		}
+		name := fmt.Sprintf("c%d", i)
+		fmt.Fprintf(&sb, "- request:\n    testName: %s\n    streamType: STREAM_TYPE_UNARY\n    requestMessages:\n    - \"@type\": type.googleapis.com/connectrpc.conformance.v1.UnaryRequest\n      responseDefinition:\n        responseData: \"dGVzdA==\"\n", name)
+		if code[0] == 'w' {
+			sb.WriteString("  expectedResponse:\n    payloads:\n    - data: \"b3RoZXI=\"\n")
+		}
+		switch code[1] {
+		case 'f':
+			failing = append(failing, "V/**/"+name)
+		case 'k':
+			flaky = append(flaky, "V/**/"+name)
+		}
+	}
+	var cmd []string
+	switch in.Client {
+	case "reference":
+		cmd = []string{filepath.Join(c.BinDir, "referenceclient")}
+	case "exit0":
+		cmd = []string{"/bin/true"}
+	case "exit1":
+		cmd = []string{"/bin/false"}
+	default:
+		panic("c04: bad client " + in.Client)
+	}
+	dir := filepath.Join(c.WorkDir, fmt.Sprintf("c04run-%d-%d", os.Getpid(), c04RunSeq.Add(1)))
+	if err := os.MkdirAll(dir, 0o755); err != nil {
+		panic(err)
+	}
+	defer os.RemoveAll(dir)
+	ok, errText, lines := cc.VerifC04Run(dir, cmd, sb.String(), c04RunCfg, failing, flaky)
+	out := c04RunOut{OK: ok, Err: errText, FailedNames: []string{}}
+	for _, l := range lines {
+		if m := c04ReFailed.FindStringSubmatch(l); m != nil {
+			out.FailedNames = append(out.FailedNames, m[1])
+		} else if m := c04ReFailedUP.FindStringSubmatch(l + "\n"); m != nil {
+			out.FailedNames = append(out.FailedNames, m[1])
+		}
+	}
+	sort.Strings(out.FailedNames)
+	return out
 }
